@@ -31,6 +31,8 @@ BAD_DOCS = [b'{"a": ', b'{"a": "\xff\xfe"}', b'']
 # documents whose top-level value is a JSON string - some of them holding text that is itself JSON (the library reads a
 # str ARGUMENT as JSON text, so the front end must hand over the file, not a decoded string)
 STR_DOCS = [b'"[1, 2, 3]"', b'"42"', b'"{"', b'"hello"', b'"null"', b'"{\\"a\\": 1}"']
+ENC_DOCS = [b"\xef\xbb\xbf" + GOOD_DOC, GOOD_DOC.decode().encode("utf-16"), GOOD_DOC.decode().encode("utf-16-le"), GOOD_DOC.decode().encode("utf-32"),
+            GOOD_DOC.decode().encode("utf-16-be")]
 PATH_EXPRS = [("$.a[0]", None), ("$..b", None), ("$[?@.b == 'x']", None), ("$.a[?@ > 1]", None), ("$", None), ("$.s", None),
               ("$.a[", "JSONPathSyntaxError"), ("$[?@.a.* == 1]", "JSONPathTypeError"), ("$[?nosuch(@)]", "JSONPathNameError"),
               ("$[9007199254740992]", "JSONPathIndexError"), ("$[?length(@.a) && @.b]", "JSONPathTypeError"), ("$[?@ =~ /(/]", "JSONPathSyntaxError"),
@@ -81,6 +83,17 @@ def gen(rng, tier):
         for pi in (2, 0, 1, 4):
             yield {"cmd": "patch", "patch": pi, "doc": doc_i, "debug": rng.random() < 0.3, "pretty": False, "out_file": rng.random() < 0.3,
                    "nue": False, "uri": False, "stdin": rng.random() < 0.3}
+    base_i = 1 + len(BAD_DOCS) + len(STR_DOCS)
+    for doc_i in range(base_i, base_i + len(ENC_DOCS)):
+        for expr in ("$.a[0]", "$..b", "$.s"):
+            yield {"cmd": "path", "expr": expr, "doc": doc_i, "debug": rng.random() < 0.3, "pretty": rng.random() < 0.3, "expr_file": rng.random() < 0.5,
+                   "out_file": rng.random() < 0.3, "nue": False, "ntc": False, "stdin": False}
+        for expr in ("/a/0", "/s", "/zz"):
+            yield {"cmd": "pointer", "expr": expr, "doc": doc_i, "debug": rng.random() < 0.3, "pretty": False, "expr_file": rng.random() < 0.5,
+                   "out_file": rng.random() < 0.3, "nue": False, "uri": False, "stdin": False}
+        for pi in (0, 3, 4):
+            yield {"cmd": "patch", "patch": pi, "doc": doc_i, "debug": rng.random() < 0.3, "pretty": False, "out_file": rng.random() < 0.3,
+                   "nue": False, "uri": False, "stdin": False}
     for pi in range(len(PATCHES)):
         for doc_i in range(1 + len(BAD_DOCS)):
             for debug in (False, True):
@@ -95,7 +108,8 @@ def doc_bytes(case):
         return GOOD_DOC
     if case["doc"] <= len(BAD_DOCS):
         return BAD_DOCS[case["doc"] - 1]
-    return STR_DOCS[case["doc"] - 1 - len(BAD_DOCS)]
+    k = case["doc"] - 1 - len(BAD_DOCS)
+    return STR_DOCS[k] if k < len(STR_DOCS) else ENC_DOCS[k - len(STR_DOCS)]
 
 
 def library(case):
